@@ -46,7 +46,7 @@ def build(cfg):
     bh = GHEBorehole(100.0, 2.0, cfg["rb"], x=0.0, y=0.0)
     if cfg["type"] == "coaxial":
         r_inner, r_outer = cfg["coax"]
-        pipe = Pipe((0, 0), list(r_inner), list(r_outer), 0, 1.0e-6, [cfg["k_p"], cfg["k_p"]], 1542000.0)
+        pipe = Pipe((0, 0), list(r_inner), list(r_outer), 0, 1.0e-6, [cfg.get("k_p_inner", cfg["k_p"]), cfg["k_p"]], 1542000.0)
         t = BHPipeType.COAXIAL
     else:
         r_in, r_out = cfg["size"]
@@ -134,7 +134,8 @@ def expand(chunk):
     t = chunk["type"]
     geoms = []
     if t == "coaxial":
-        geoms = [{"coax": [list(c[0]), list(c[1])], "rb": rb} for c in COAX for rb in RBS]
+        # inner pipe as conductive as the outer one, insulated (0.1), or more conductive (1.2)
+        geoms = [{"coax": [list(c[0]), list(c[1])], "rb": rb, **({"k_p_inner": ki} if ki else {})} for c in COAX for rb in RBS for ki in (None, 0.1, 1.2)]
     else:
         geoms = [{"size": list(s), "shank": sh, "rb": rb} for s in SIZES for sh in SHANKS for rb in RBS]
     for g in geoms[chunk["glo"]:chunk["ghi"]]:
@@ -164,7 +165,7 @@ def main(run: core.Run, only=None):
     fluids = FLUIDS[:2] if quick else FLUIDS
     md = MDOT[::3] + [0.2] if quick else MDOT
     cases = []
-    for t, ng in (("double_parallel", 27), ("double_series", 27), ("coaxial", 9), ("single", 27)):
+    for t, ng in (("double_parallel", 27), ("double_series", 27), ("coaxial", 27), ("single", 27)):
         for lo in range(0, ng, 3):
             cases.append({"type": t, "glo": lo, "ghi": min(ng, lo + 3), "kg": kg, "ks": ks, "kp": kp, "fluids": fluids, "mdot": md if t != "single" else md[:1]})
     run.drive(cases, family="conversions")
